@@ -124,7 +124,7 @@ class Case:
                                     "encb", "decb", "oneshot", "oneshotb", "padenc", "paddec", "ksblock", "ksblocks",
                                     "applyblocks", "applyblocksb", "seek", "newslice", "debug", "E", "D", "backend", "applyblock", "applyblockb",
                                     "ksdirect", "encio", "decio", "enciob", "deciob", "blockio", "blockiob", "blocksio", "blocksiob",
-                                    "oneshotio", "oneshotiob", "enccf", "deccf", "padencs", "padencb", "paddecs", "paddecb") for o in self.ops)
+                                    "oneshotio", "oneshotiob", "enccf", "deccf", "partial", "partialb", "padencs", "padencb", "paddecs", "paddecb") for o in self.ops)
 
 
 class ExecError(Exception):
@@ -244,7 +244,9 @@ def obs_match_spec(h, s):
     if s is None or h is None:
         return False
     if s == "?":
-        return h not in ("panic", "bad-op")
+        return h not in ("panic", "bad-op") and not h.startswith("errmod")
+    if s == "out|err":          # projected form of `out <bytes>|err`
+        return h in ("out", "err")
     if "|" in s:
         head, _, rest = s.partition(" ")
         alts = rest.split("|")
